@@ -116,11 +116,13 @@ def check(case):
             paths.append(str(p))
         out = tmp / "out.fasta"
         # history: an earlier call in the same process with the opposite mode must not influence this one
-        pre = tmp / "pre.fasta"
+        pre = tmp / "db0.fasta"  # same path as the first input file: it is overwritten with the real content below
+        real0 = pre.read_text()
         pre.write_text(">pre1\nMAAAGGGPPPKAGPMAGPMRGGAPMAPG\n>pre2\nAGPMAGK\n")
         np.random.seed(case["np_seed"] ^ 0x5A5A)
         guarded(mf.make_decoys, str(pre), str(tmp / "pre_out.fasta"), enzyme=case["enzyme"], reverse=not case["reverse"],
                 concatenate=not case["concatenate"], sig="make_decoys")
+        pre.write_text(real0)
         np.random.seed(case["np_seed"])
         ret = guarded(mf.make_decoys, paths if len(paths) > 1 else paths[0], str(out), decoy_prefix=case["prefix"],
                       enzyme=case["enzyme"], reverse=case["reverse"], concatenate=case["concatenate"], sig="make_decoys")
